@@ -28,6 +28,7 @@ import GoZero.C19.Atomic
 import GoZero.C19.InjModel
 import GoZero.C19.Driver
 import GoZero.C19.LinProofs
+import GoZero.C19.Ids
 namespace GoZero.C19
 open Spec
 
@@ -527,6 +528,36 @@ the same id with probability `62⁻¹⁶`, and among `n` instances some pair col
 instances: below 10⁻¹⁶".  What is *not* covered: `stringx` seeds `math/rand` with the start time in
 nanoseconds — two processes started in the same nanosecond draw the same ids (assumption, props/C19.json). -/
 
+/-- **shape of an id**: whatever the random source delivers, `Randn(n)` (if it returns) is `n` characters of the
+62-letter alphabet. -/
+theorem randn_id_shape (n : Nat) (draws : List Nat) (id : List Char) (h : randnFrom n draws = some id) :
+    id.length = n ∧ ∀ c ∈ id, c ∈ idAlphabet :=
+  ⟨randnFrom_length n draws id h, randnFrom_alphabet n draws id h⟩
+
+/-- **different accepted draws give different ids** (the map from the `n` accepted 6-bit indices to the id is
+injective, and an index is accepted iff it is `< 62`): if the draws are uniform and independent, every one of the
+`62ⁿ` ids is equally likely — the hypothesis under which `id_collision_union_bound` is read. -/
+theorem randn_injective_on_accepted_draws (n : Nat) (d1 d2 : List Nat) (id : List Char)
+    (h1 : randnFrom n d1 = some id) (h2 : randnFrom n d2 = some id) :
+    (d1.filter (· < 62)).take n = (d2.filter (· < 62)).take n := by
+  have hm : ∀ (d : List Nat), ∀ i ∈ (d.filter (· < 62)).take n, i < 62 := by
+    intro d i hi
+    have := List.mem_of_mem_take hi
+    simp only [List.mem_filter, decide_eq_true_eq] at this
+    exact this.2
+  unfold randnFrom at h1 h2
+  split at h1
+  · split at h2
+    · cases h1
+      simp only [Option.some.injEq, List.reverse_inj] at h2
+      exact (map_getD_inj _ _ (hm d2) (hm d1) h2).symm
+    · cases h2
+  · cases h1
+
+/-- one `Int63` yields 10 draws, each `< 64`; 62 of the 64 values are accepted -/
+theorem randn_draws_of_int63 (v : Nat) : (drawsOfInt63 v).length = 10 ∧ ∀ d ∈ drawsOfInt63 v, d < 64 :=
+  ⟨by simp [drawsOfInt63], drawsOfInt63_lt v⟩
+
 theorem id_space : 62 ^ 16 = 47672401706823533450263330816 := by decide
 
 /-- `n ≤ 10⁶` instances: (number of pairs) · 10¹⁶ ≤ 62¹⁶, i.e. collision probability ≤ 10⁻¹⁶ -/
@@ -710,5 +741,8 @@ example : (crun real exCfg CConc.init [.acquire 0 0 true, .cmd 0, .ret 0, .acqui
 -- Release took effect after the expiry (position 1; position 2, after the competitor's Acquire, explains it too)
 example : linearize exCfg ["k"] (Spec.run exCfg ASt.init [.acquire 0]) (.release 0) (some false)
     [(.ft 500, some true), (.acquire 1, some true)] "k=aa:500" = some (1, 0) := by decide
+
+-- Randn(3) from one Int63 whose low draws are 0, 63 (rejected), 61, 26: ids fill from the back: "A9a"
+example : randnFrom 3 (drawsOfInt63 (0 + 63 * 64 + 61 * 64 ^ 2 + 26 * 64 ^ 3)) = some ['A', '9', 'a'] := by decide
 
 end GoZero.C19
